@@ -63,7 +63,8 @@ def main(argv=None) -> int:
         return 2
     except Exception as e:  # never let a traceback look like a violation
         print(f'ANALYSIS-ERROR property={prop} internal: {type(e).__name__}: {e}')
-        traceback.print_exc()
+        tb = traceback.format_exc().splitlines()
+        print('\n'.join(tb[-12:]))
         return 2
 
 
